@@ -125,13 +125,13 @@ func (r *router) logMemStats(interval time.Duration) {
 func (r *router) Logger() stdlog.StdLog { return r.log }
 
 // Attach connects a client to the router and to the requested realm. If
-// successful, Attach returns after sending a WELCOME message to the client.
+// successful, Attach returns once the session is started; WELCOME is the first message sent to the client.
 func (r *router) Attach(client wamp.Peer) error {
 	return r.AttachClient(client, nil)
 }
 
 // AttachClient connects a client to the router and to the requested realm. If
-// successful, Attach returns after sending a WELCOME message to the client.
+// successful, Attach returns once the session is started; WELCOME is the first message sent to the client.
 //
 // Additional information is provided in transportDetails. This information
 // becomes part of HELLO.Details and session.Details, as details["transport"].
@@ -280,13 +280,12 @@ func (r *router) AttachClient(client wamp.Peer, transportDetails wamp.Dict) erro
 
 	sess.Details = sessDetails
 
-	if err := realm.handleSession(sess); err != nil {
+	if err := realm.handleSession(sess, welcome); err != nil {
 		// Any error returned here is a shutdown error.
 		sendAbort(wamp.ErrSystemShutdown, nil)
 		return err
 	}
 
-	client.Send() <- welcome // Blocking OK; this is session goroutine.
 	if r.debug {
 		r.log.Println("Finished attaching session:", sid)
 	}
